@@ -464,8 +464,26 @@ class Inliner:
         seen = set()
         cur = target
         dconst = {}
+        def mentions(blk, locs):
+            def walk(x):
+                if isinstance(x, dict):
+                    for k, v in x.items():
+                        if k in PLACE_KEYS and isinstance(v, list) and v and v[0] in locs:
+                            return True
+                        if walk(v):
+                            return True
+                elif isinstance(x, list):
+                    return any(walk(y) for y in x)
+                return False
+            return walk(blk["stmts"]) or walk({k: v for k, v in blk["term"].items() if k != "f"})
+
         for _ in range(18):
             if cur is None or cur in seen or not facts or rec["blocks"][cur].get("cleanup"):
+                break
+            cb_ = rec["blocks"][cur]
+            trivial = not cb_["stmts"] and cb_["term"]["k"] in ("goto", "drop")
+            if not trivial and not mentions(cb_, set(facts) | set(dconst)):
+                # the known value is not looked at here: the specialised copy would only duplicate ordinary code
                 break
             seen.add(cur)
             nb = copy.deepcopy(rec["blocks"][cur])
